@@ -480,7 +480,8 @@ def c03(tier, rng, fam='C03'):
             b.step('adv', ms=60)
             out.append(b.q().done())
     # a unary handler that returns nil with a reply the codec refuses: whatever the server makes of it, not a success
-    out += [x for x in _g2.unencodable_elsewhere(fam) if 'unencodable reply' in x['tag']]
+    # ... and a stream handler whose Send is refused by the codec goes on and returns what it returns
+    out += [x for x in _g2.unencodable_elsewhere(fam) if 'unencodable reply' in x['tag'] or 'handler' in x['tag']]
     return out
 
 
